@@ -38,25 +38,29 @@ ErrR(e) == [err |-> e, val |-> <<>>]
 IsAbs(cs) == Len(cs) >= 2 /\ cs[1] = <<>>
 
 (****************************** C07: get ***********************************)
+\* results of get: the node, or the error class together with its payload -- the node at which the *first* failing
+\* component was looked up (ResolverError.node) and that component (ResolverError.child; empty for Root/ResolverError)
+OkG(v) == [err |-> "none", val |-> v, at |-> <<>>, comp |-> <<>>]
+ErrG(e, n, c) == [err |-> e, val |-> <<>>, at |-> <<n>>, comp |-> c]
 RECURSIVE GetFrom(_, _, _, _, _, _)
 GetFrom(par, ch, names, n, cs, ic) ==
-  IF cs = <<>> THEN OkR(<<n>>)
+  IF cs = <<>> THEN OkG(<<n>>)
   ELSE LET c == Head(cs) IN
-       IF c = DD THEN (IF par[n] = Nil THEN ErrR("RootResolverError") ELSE GetFrom(par, ch, names, par[n], Tail(cs), ic))
+       IF c = DD THEN (IF par[n] = Nil THEN ErrG("RootResolverError", n, <<>>) ELSE GetFrom(par, ch, names, par[n], Tail(cs), ic))
        ELSE IF IsStay(c) THEN GetFrom(par, ch, names, n, Tail(cs), ic)
        ELSE LET ks == SelectSeq(ch[n], LAMBDA x: Cmp(names[x], c, ic)) IN
-            IF ks = <<>> THEN ErrR("ChildResolverError") ELSE GetFrom(par, ch, names, ks[1], Tail(cs), ic)
+            IF ks = <<>> THEN ErrG("ChildResolverError", n, c) ELSE GetFrom(par, ch, names, ks[1], Tail(cs), ic)
 
 GetStrict(par, ch, names, start, cs, ic) ==
   IF IsAbs(cs) THEN
      LET root == RootOf(par, start) IN
-     IF cs[2] = <<>> THEN ErrR("ResolverError")                           \* root node missing
-     ELSE IF ~Cmp(names[root], cs[2], ic) THEN ErrR("ResolverError")      \* unknown root node
+     IF cs[2] = <<>> THEN ErrG("ResolverError", root, <<>>)                           \* root node missing
+     ELSE IF ~Cmp(names[root], cs[2], ic) THEN ErrG("ResolverError", root, <<>>)      \* unknown root node
      ELSE GetFrom(par, ch, names, root, SubSeq(cs, 3, Len(cs)), ic)
   ELSE GetFrom(par, ch, names, start, cs, ic)
 \* relax=True: None (an empty val) in exactly the error cases, never raises
 Get(par, ch, names, start, cs, ic, relax) ==
-  LET r == GetStrict(par, ch, names, start, cs, ic) IN IF relax /\ r.err # "none" THEN OkR(<<>>) ELSE r
+  LET r == GetStrict(par, ch, names, start, cs, ic) IN IF relax /\ r.err # "none" THEN OkG(<<>>) ELSE r
 
 \* the two spellings of a node the property names
 AbsPathOf(par, names, n) == <<<<>>>> \o [i \in 1..Len(PathTo(par, n)) |-> names[PathTo(par, n)[i]]]
